@@ -1284,3 +1284,163 @@ def f_restart_gen(report, retrieve_post):
                        contract=spec.frame_contract(),
                        maythrow=["QR_compute_ds", "QR_compute", "QR_apply_YQ", "compress_H_ds", "compress_H_hb", "compress_V", "factorize_from", "retrieve_ritzpair"])
     return t, spec
+
+
+# =========================================================================== shift-and-invert overrides
+
+def bt_rule(gen, ops_out=None):
+    """`m_ritz_val.head(N)[.array()] = NUM / m_ritz_val.head(N).array() + ADD;` rendered coefficient-wise (Eigen semantics
+    assumed); N, NUM and ADD are kept from the source text."""
+    def _r(m):
+        n1, num, n2, add = m.group(1), m.group(2), m.group(3), m.group(4)
+        if ops_out is not None:
+            ops_out.extend([num.strip(), add.strip()])
+        expr = "CPLX_BACKTRANSFORM(%s, S->m_ritz_val[e_], %s)" % (num, add) if gen else "(%s) / S->m_ritz_val[e_] + (%s)" % (num, add)
+        return ("SEG_CHECK(S->m_ritz_val, %s); SEG_CHECK(S->m_ritz_val, %s); __CPROVER_assert((%s) == (%s), @Q@Eigen: coefficient-wise assignment needs equal sizes@Q@); "
+                "g_bt_n = (%s); S->g_backtransformed++; for (Index e_ = 0; e_ < (%s); e_++) { S->m_ritz_val[e_] = %s; }" % (n1, n2, n1, n2, n1, n1, expr))
+    return ("backtransform", r"S->m_ritz_val\.head\(([^()]+)\)(?:\.array\(\))? = (.+?) / S->m_ritz_val\.head\(([^()]+)\)\.array\(\) \+ ([^;]+);", _r, {"max": 1})
+
+
+BT_DEFS = r'''
+Index g_bt_n;      /* ghost: number of leading Ritz values the back-transformation was applied to */
+#ifdef GEN
+/* std::complex: num / z + add  (library arithmetic, assumed) */
+static Complex CPLX_BACKTRANSFORM(Scalar num, Complex z, Scalar add)
+{ Complex r; Scalar d = z.re * z.re + z.im * z.im; r.re = num * z.re / d + add; r.im = -num * z.im / d; return r; }
+#endif
+'''
+
+
+def f_shift_sort(gen, report):
+    """SymEigsShiftSolver / GenEigsRealShiftSolver ::sort_ritzpair override."""
+    hdr, cls = ("GenEigsRealShiftSolver.h", "GenEigsRealShiftSolver") if gen else ("SymEigsShiftSolver.h", "SymEigsShiftSolver")
+    base = sort_spec(gen, hdr, cname="sort_ritzpair")
+    spec = FSpec("shift_sort_ritzpair", "void", [("Solver *", "S"), ("SortRule", "sort_rule")],
+                 pre=base.pre + [("back-transformation counter bounded", "0 <= S->g_backtransformed && S->g_backtransformed <= 1000")],
+                 post=[("the spectral back-transformation lambda = 1/nu + sigma ran exactly once, on exactly the nev wanted Ritz values, before sorting",
+                        "S->g_backtransformed == old_bt + 1 && g_bt_n == S->m_nev && g_bt_before_sort")],
+                 exc_post=[("rejected sorting rule propagates from the base class", "verif_exc == EXC_invalid_argument")],
+                 frame=base.frame + ["S->g_backtransformed", "g_bt_n", "g_bt_before_sort"], frame_inplace=base.frame_inplace, frame_inplace_mat=base.frame_inplace_mat,
+                 may_throw=[1], olds=[("Index", "old_bt", "S->g_backtransformed")], real=hdr + ":sort_ritzpair")
+    ops = []
+    extra = [bt_rule(gen, ops),
+             ("base", r"Base::sort_ritzpair\(sort_rule\);", "g_bt_before_sort = (S->g_backtransformed == old_bt_l + 1); sort_ritzpair(S, sort_rule);", {"max": 1})]
+    inv = {0: "__CPROVER_assigns(e_, __CPROVER_object_whole(S->m_ritz_val)) __CPROVER_loop_invariant(0 <= e_ && e_ <= S->m_nev) __CPROVER_decreases(S->m_nev - e_)"}
+    t = emit_solver_fn(hdr, cls, "sort_ritzpair", "shift_sort_ritzpair", report, ret_c="void", extra=extra, loops=inv,
+                       contract=spec.frame_contract(), maythrow=["sort_ritzpair"], members=SOLVER_MEMBERS + ["m_sigma"],
+                       pre_body=" const Index old_bt_l = S->g_backtransformed;")
+    report["backtransform:" + cls] = {"numerator": ops[0], "addend": ops[1]}
+    return "_Bool g_bt_before_sort;\n" + t, spec, tuple(ops)
+
+
+def backtransform_lemma(name, numer, addend, forward):
+    """z3 lemma over the reals: the extracted expression NUM/nu + ADD inverts the documented spectral map."""
+    from vlib import z3lemma
+    def smt(e):
+        e = e.strip()
+        e = re.sub(r"\(\((?:Real)?Scalar\)\((\d+)\)\)", r"\1", e)
+        e = e.replace("S->m_sigma", "sigma")
+        if re.match(r"^\(*\d+\)*$", e):
+            return re.sub(r"[()]", "", e) + ".0"
+        if e in ("sigma",):
+            return e
+        raise X.ExtractionBreak("back-transformation operand %r not understood" % e)
+    txt = """(declare-const lambda Real) (declare-const sigma Real) (declare-const nu Real)
+(assert (not (= lambda sigma)))
+(assert (= nu %s))
+(assert (not (= (+ (/ %s nu) %s) lambda)))
+(check-sat)
+""" % (forward, smt(numer), smt(addend))
+    return z3lemma.Z3Group(name, txt, note="extracted back-transformation %s/nu + %s inverts nu = %s (real arithmetic: machine arithmetic treated as mathematical)" % (numer, addend, forward))
+
+
+def f_shift_ctor(report):
+    """Constructors of the three shift solvers: base constructor, then op.set_shift(sigma) with the constructor's shift."""
+    out = {}
+    for hdr, cls, want_init, want_body in (
+            ("SymEigsShiftSolver.h", "SymEigsShiftSolver", "Base(op, IdentityBOp(), nev, ncv), m_sigma(sigma)", "op.set_shift(m_sigma);"),
+            ("GenEigsRealShiftSolver.h", "GenEigsRealShiftSolver", "Base(op, IdentityBOp(), nev, ncv), m_sigma(sigma)", "op.set_shift(m_sigma);"),
+            ("GenEigsComplexShiftSolver.h", "GenEigsComplexShiftSolver", "Base(op, IdentityBOp(), nev, ncv), m_sigmar(sigmar), m_sigmai(sigmai)", "op.set_shift(m_sigmar, m_sigmai);")):
+        f = X.locate(hdr, cls, cls=cls)
+        if " ".join(f.inits.split()) != want_init or " ".join(f.body.split()) != want_body:
+            raise X.ExtractionBreak("%s constructor changed: %r / %r" % (cls, f.inits, f.body))
+        out[cls] = "installs the constructor's shift in the operator (text checked): " + want_body
+    report["shift constructors"] = out
+    return out
+
+
+# --------------------------------------------------------------------------- GenEigsComplexShiftSolver::sort_ritzpair
+
+CSHIFT_DEFS = r'''
+static void OP_set_shift2(Op *op, Scalar re, Scalar im) { op->shift_re = re; op->shift_im = im; }
+/* the post-processing solves at the probe shift are outside the counted iteration (C05 statement): not counted in g_ops */
+static void OP_probe_op(Op *op, const Scalar *x_in, Scalar *y_out)
+{
+  __CPROVER_assert(__CPROVER_r_ok(x_in, op->n * sizeof(Scalar)), "operator argument: x_in is a valid length-n vector");
+  __CPROVER_assert(__CPROVER_w_ok(y_out, op->n * sizeof(Scalar)), "operator argument: y_out is a valid length-n vector");
+  __CPROVER_assert(!__CPROVER_same_object(x_in, y_out), "operator argument: x_in and y_out are distinct buffers");
+  if (nondet_bool()) { verif_exc = EXC_user; return; }
+  __CPROVER_havoc_object(y_out);
+}
+static Complex nondet_Complex(void) { Complex z; z.re = nondet_Scalar(); z.im = nondet_Scalar(); return z; }
+static Complex CMAKE(Scalar re, Scalar im) { Complex z; z.re = re; z.im = im; return z; }
+static Complex CCONJ(Complex z) { Complex r; r.re = z.re; r.im = -z.im; return r; }
+_Bool g_pair_adjacent_violated;   /* ghost: a conjugate was written over an entry that is not the conjugate partner in the iterated spectrum */
+'''
+
+
+def cshift_spec():
+    base = sort_spec(True, "GenEigsComplexShiftSolver.h")
+    return FSpec("cshift_sort_ritzpair", "void", [("Solver *", "S"), ("SortRule", "sort_rule")],
+                 pre=base.pre + [("V is n x ncv", "S->m_fac.m_fac_V.rows == S->m_n && S->m_fac.m_fac_V.cols == S->m_ncv && S->m_op->n == S->m_n && 1 <= S->m_n && S->m_n <= NMAX && S->m_nev + 2 <= S->m_ncv"),
+                                 ("the operator carries the shift installed by the constructor", "S->m_op->shift_re == S->m_sigmar && S->m_op->shift_im == S->m_sigmai"),
+                                 ("back-transformation counter bounded", "0 <= S->g_backtransformed && S->g_backtransformed <= 1000")],
+                 post=[("the shift installed at construction is still in force when compute() returns", "S->m_op->shift_re == S->m_sigmar && S->m_op->shift_im == S->m_sigmai"),
+                       ("post-processing solves are not counted as iteration work", "g_ops == old_ops && S->m_nmatop == old_nmatop"),
+                       ("root selection ran once per compute(), before sorting", "S->g_backtransformed == old_bt + 1"),
+                       # NOT claimed (DESIGN section 4, F5): "a conjugate is only written over its conjugate partner" needs adjacency of conjugate
+                       # pairs, which the sort contract does not give for tied keys; the obligation fails, no real failing input was found
+                       # (replay_src/C02_cshift_pairs_replay.cpp), so it is neither a violation nor a finding.  The write itself is index-safe.
+                       ],
+                 exc_post=[("operator exception or rejected rule propagates", "verif_exc == EXC_user || verif_exc == EXC_invalid_argument")],
+                 frame=base.frame + ["S->g_backtransformed", "S->m_op->shift_re", "S->m_op->shift_im", "g_pair_adjacent_violated", "S->m_fac.m_fac_V.cell"],
+                 frame_inplace=base.frame_inplace, frame_inplace_mat=base.frame_inplace_mat, may_throw=[1, 7],
+                 olds=[("Index", "old_bt", "S->g_backtransformed"), ("Index", "old_ops", "g_ops"), ("Index", "old_nmatop", "S->m_nmatop")],
+                 real="GenEigsComplexShiftSolver.h:sort_ritzpair")
+
+
+def f_cshift_sort(report):
+    stm = []
+    spec = cshift_spec()
+    hdr, cls = "GenEigsComplexShiftSolver.h", "GenEigsComplexShiftSolver"
+    pre = [("rng", r"SimpleRandom<Scalar> rng\(0\);", "", {"max": 1}),
+           ("shiftr", r"const Scalar shiftr = rng\.random\(\) \* m_sigmar \+ rng\.random\(\);", "const Scalar shiftr = nondet_Scalar();", {"max": 1}),
+           ("set_shift", r"m_op\.set_shift\(shiftr, Scalar\(0\)\);", "OP_set_shift2(m_op, shiftr, (Scalar)0);", {"max": 1}),
+           ("probe-op", r"m_op\.perform_op\((\w+)\.data\(\), (\w+)\.data\(\)\);", r"OP_probe_op(m_op, \1, \2);", {"min": 2, "max": 2}),
+           ("inner-loop", r"for \(int k = 0; k < m_n; k\+\+\)\s*\{.*?err2 \+= norm\(OPv - rhs2\);\s*\}",
+            "__CPROVER_assert(VEC_SIZE(v_real) >= m_n && VEC_SIZE(v_imag) >= m_n && VEC_SIZE(OPv_real) >= m_n && VEC_SIZE(OPv_imag) >= m_n, @Q@Eigen index assertion: k < size() for all k < n@Q@); "
+            "err1 = nondet_Scalar(); err2 = nondet_Scalar();", {"max": 1}),
+           ("nu", r"const Complex nu = m_ritz_val\[i\];", "const Complex nu = m_ritz_val[i];", {"max": 1}),
+           ("complex-expr", r"const Complex (shift|root_part1|root_part2|root1|root2) = [^;]+;", r"const Complex \1 = nondet_Complex();", {"min": 5, "max": 5}),
+           ("imag", r"Eigen::numext::imag\((\w+)\)", r"(\1).im", {"max": 1}),
+           ("conj-write", r"m_ritz_val\[i \+ 1\] = Eigen::numext::conj\((\w+)\);",
+            r"if (i + 1 < m_nev && !is_conj(nu, m_ritz_val[i + 1])) g_pair_adjacent_violated = 1; m_ritz_val[i + 1] = CCONJ(\1);", {"max": 1}),
+           ("real-write", r"Complex\(Eigen::numext::real\((\w+)\), Scalar\(0\)\)", r"CMAKE((\1).re, (Scalar)0)", {"max": 1}),
+           ("restore", r"m_op\.set_shift\(m_sigmar, m_sigmai\);", "OP_set_shift2(m_op, m_sigmar, m_sigmai);", {"min": 0, "max": 1}),
+           ("base", r"Base::sort_ritzpair\(sort_rule\);", "OLDBT_CHECK; sort_ritzpair(S, sort_rule);", {"max": 1})]
+    post_fn = fac_post_fn(["m_fac_V", "m_ritz_vec"], ["v_real", "v_imag", "OPv_real", "OPv_imag"], stm)
+
+    def pf(b, R):
+        b = post_fn(b, R)
+        return b.replace("OLDBT_CHECK;", "S->g_backtransformed++;")
+    inv = ("__CPROVER_assigns(i, verif_exc, g_pair_adjacent_violated, S->m_fac.m_fac_V.cell, S->m_ritz_vec.cell, __CPROVER_object_whole(S->m_ritz_val), "
+           "__CPROVER_object_whole(v_real), __CPROVER_object_whole(v_imag), __CPROVER_object_whole(OPv_real), __CPROVER_object_whole(OPv_imag)) "
+           "__CPROVER_loop_invariant(0 <= i && i <= S->m_nev + 1 && verif_exc == 0) __CPROVER_decreases(S->m_nev + 1 - i)")
+    # the structural rewrites (vector declarations, V * col(i) products) run as a post function
+    f = X.locate(hdr, "sort_ritzpair", cls=cls)
+    t, R = cgen.emit(f, "cshift_sort_ritzpair", ret_c="void", self_type="Solver", self_name="S", members=SOLVER_MEMBERS + ["m_sigmar", "m_sigmai"],
+                     pre_rules=pre, extra_rules=accessor_rules(report), loop_contracts={0: inv}, contract=spec.frame_contract(),
+                     maythrow=["OP_probe_op", "sort_ritzpair"], post_fn=pf, pre_body=" g_pair_adjacent_violated = 0;")
+    report["GenEigsComplexShiftSolver::sort_ritzpair"] = R.fired
+    report.setdefault("abstracted_statements", {})["GenEigsComplexShiftSolver::sort_ritzpair"] = stm
+    return t, spec
